@@ -5,7 +5,8 @@
 (*   {"ev":"reset","cfg":{"max_peers":..,"max_warm":..,"max_hot":..,..}}     *)
 (*   {"ev":E,"p":P,"m":{..},"out":[{"t":"connect"|..,"p":Q,..}],             *)
 (*    "cold":[..],"warm":[..],"hot":[..],"banned":[..],"tracked":[..],..}    *)
-(*   {"ev":"skip",..}  {"ev":"panic",..}  (no effect here; C29 judges panics) *)
+(*   {"ev":"skip",..} no effect; {"ev":"panic","a":E,..sets..}: C29 judges    *)
+(*   the panic itself, the sets it left behind are judged here                *)
 (* Every event is consumed; a step that breaks the property prints           *)
 (*   <<"BAD", line, keys>>  and the run goes on (violations are collected).  *)
 EXTENDS PromotionProps, TraceKit
@@ -21,11 +22,12 @@ TReset == /\ l <= NRec /\ Rec[l].ev = "reset" /\ l' = l + 1
                    ELSE PPInit(100, 50, 10)
           /\ pbad' = {}
 
-TIgnore == l <= NRec /\ Rec[l].ev \in {"skip", "panic"} /\ l' = l + 1 /\ UNCHANGED <<pp, pbad>>
+TIgnore == l <= NRec /\ Rec[l].ev = "skip" /\ l' = l + 1 /\ UNCHANGED <<pp, pbad>>
 
-TStep == /\ l <= NRec /\ Rec[l].ev \notin {"reset", "skip", "panic"} /\ l' = l + 1
+\* a step that panicked still leaves the sets behind (logged after the unwind): they are judged like any other
+TStep == /\ l <= NRec /\ Rec[l].ev \notin {"reset", "skip"} /\ l' = l + 1
          /\ LET r == Rec[l]
-                R == PPResult(pp, [ev |-> r.ev, p |-> r.p, m |-> NoMsg], r.out,
+                R == PPResult(pp, [ev |-> IF r.ev = "panic" THEN r.a ELSE r.ev, p |-> r.p, m |-> NoMsg], r.out,
                               SeqToSet(r.cold), SeqToSet(r.warm), SeqToSet(r.hot), SeqToSet(r.banned),
                               SeqToSet(r.tracked))
             IN /\ pp' = R.P /\ pbad' = R.nb
